@@ -36,7 +36,7 @@ func fullScanLoop(l *loopInfo, p ssa.Value) (idx ssa.Value, ok bool, why string)
 	if !isCall {
 		return nil, false, "loop bound is not len(slice)"
 	}
-	if b, isB := call.Call.Value.(*ssa.Builtin); !isB || b.Name() != "len" || call.Call.Args[0] != p {
+	if b, isB := call.Call.Value.(*ssa.Builtin); !isB || b.Name() != "len" || !(call.Call.Args[0] == p || sameFieldReload(call.Call.Args[0], p, l)) {
 		return nil, false, "loop bound is not the length of the scanned slice"
 	}
 	// index: bo.X is phi (start 0) or phi+1 (start -1)
@@ -595,4 +595,29 @@ func leaveSelectorBySearch(m *Model, sel *ssa.Function, p ssa.Value) (handled bo
 		bad = append(bad, fmt.Sprintf("selector has %d nil returns and %d element returns", nNil, nElem))
 	}
 	return true, bad
+}
+
+// sameFieldReload: a and b are two loads of the same field of the same object (an index loop re-reads g.Nodes in its header
+// and in its body) and the loop does not store into that field.
+func sameFieldReload(a, b ssa.Value, l *loopInfo) bool {
+	ua, ok1 := a.(*ssa.UnOp)
+	ub, ok2 := b.(*ssa.UnOp)
+	if !ok1 || !ok2 || ua.Op != token.MUL || ub.Op != token.MUL {
+		return false
+	}
+	fa, ok1 := ua.X.(*ssa.FieldAddr)
+	fb, ok2 := ub.X.(*ssa.FieldAddr)
+	if !ok1 || !ok2 || !sameSSAExpr(fa, fb, 0) {
+		return false
+	}
+	for bb := range l.Body {
+		for _, in := range bb.Instrs {
+			if st, ok := in.(*ssa.Store); ok {
+				if f2, ok := st.Addr.(*ssa.FieldAddr); ok && f2.Field == fa.Field && types.Identical(f2.X.Type(), fa.X.Type()) {
+					return false
+				}
+			}
+		}
+	}
+	return true
 }
